@@ -211,13 +211,36 @@ def run_item(item, workdir, paths):
 
         L = lk(directories=[src], modulename_callable=mc_)
         res["modulename_callable"] = {"render": _outcome(lambda: L.get_template(main).render(**ctx))}
+    if "out-enc" in paths:
+        # bytes-producing paths with stateful codecs: render() must be render_unicode() encoded once
+        out = {}
+        for enc in ("utf-16", "utf-8-sig", "utf-32"):
+            L = lk(output_encoding=enc)
+            for uri, text in item["files"].items():
+                L.put_string(uri, text)
+            t = L.get_template(main)
+
+            def both():
+                u = t.render_unicode(**ctx)
+                b = t.render(**ctx)
+                return "same" if b == u.encode(enc) else "DIFF %r vs %r" % (b[:40], u.encode(enc)[:40])
+
+            out[enc] = _outcome(both)
+        res["out-enc"] = {"renders": out}
     if "cmd" in paths:
         from mako import cmd
 
         argv = []
         for k, v in ctx.items():
             argv += ["--var", "%s=%s" % (k, v)]
-        argv += ["--template-dir", src, os.path.join(src, main.lstrip("/"))]
+        # an earlier template directory holds a different file of the same relative name: the file given on
+        # the command line must be the one rendered
+        decoy = os.path.join(workdir, "decoy")
+        dp = os.path.join(decoy, main.lstrip("/"))
+        os.makedirs(os.path.dirname(dp), exist_ok=True)
+        with open(dp, "w") as f:
+            f.write("DECOY")
+        argv += ["--template-dir", decoy, "--template-dir", src, os.path.join(src, main.lstrip("/"))]
         out, err = io.StringIO(), io.StringIO()
 
         def run():
